@@ -24,7 +24,7 @@ pub struct Report {
     /// distinct non-trivial cases counted by construction (duplicate-free enumerations)
     pub nontrivial_extra: u64,
     max_samples: usize,
-    seen_sigs: BTreeMap<String, u64>,
+    pub seen_sigs: BTreeMap<String, u64>,
 }
 
 impl Report {
